@@ -1380,6 +1380,14 @@ class ScalarDistribution(BaseDistribution):
         will no longer be normalized (assuming it was in the first place).
 
         """
+        if self.is_joint():
+            try:
+                # As in __getitem__: the same symbols given as another sequence
+                # class name the same outcome.
+                outcome = self._outcome_ctor(outcome)
+            except (TypeError, ditException):
+                raise InvalidOutcome(outcome)
+
         if not self.has_outcome(outcome, null=True):
             raise InvalidOutcome(outcome)
 
